@@ -285,7 +285,7 @@ func workerMain(thorough bool) {
 	enumerate(thorough, func(idx, si int, ph string, s string) { used[si] = true })
 	if *flagOnly < 0 && *flagFrom == 0 {
 		for i := range sites {
-			if !mine(i) || !used[i] {
+			if !mine(i) || !used[i] || sites[i].Auto {
 				continue
 			}
 			site := &sites[i]
@@ -519,7 +519,17 @@ func main() {
 		"table and database names come from configuration, not from requests, and are outside the quantifier",
 		"one position is hostile per request; the other strings of the request are harmless",
 	}
-	r.Extra["request_surface_scan"] = scanRequestSurface()
+	scan := scanRequestSurface()
+	r.Extra["request_surface_scan"] = map[string]any{"service_parameters_checked": scan.ParamsChecked, "planner_context_fields_read": scan.Fields,
+		"unclassified": scan.Unclassified, "unknown_service_methods_enumerated_generically": scan.NewMethods}
+	for _, u := range scan.Unclassified {
+		fmt.Printf("[C10] unclassified request item: %s\n", u)
+		r.Cap("unclassified request item: " + u)
+	}
+	for _, m := range sortedKeys(scan.NewMethods) {
+		fmt.Printf("[C10] unclassified request item: service method %s(%s) - its string parameters are enumerated generically\n", m, strings.Join(scan.NewMethods[m], ", "))
+		r.Cap("unclassified request item: service method " + m + " (string parameters enumerated generically, no option sets)")
+	}
 	W := *flagW
 	if W <= 0 {
 		W = runtime.NumCPU()
